@@ -815,16 +815,45 @@ impl C11 {
             Case::Invalid { machine, what } => {
                 stats.inc("well_formed_invalid_machines");
                 stats.fault(&format!("invalid_field.{what}"));
-                if catch_sut(|| machine.validate()).map_or(true, |r| r.is_ok()) {
-                    // the corruption happened to be harmless (or validation itself
-                    // crashed, which is C12's matter): nothing to decide here
-                    stats.inc("invalid_case_was_valid");
-                    return v;
-                }
+                let accepted_by_validation =
+                    catch_sut(|| machine.validate()).map_or(true, |r| r.is_ok());
                 let Ok(s) = catch_sut(|| machine.serialize()) else {
                     return v;
                 };
                 let r = catch_sut(|| Machine::from_str(&s));
+                if accepted_by_validation {
+                    // the corruption is one validation lets through (a harmless corner
+                    // value on the unchanged tree): what the parser then hands out has
+                    // to be usable - "rejected safely" is void if the accepted machine
+                    // brings the framework down on its first events
+                    stats.inc("invalid_case_was_valid");
+                    if let Ok(Ok(m2)) = &r {
+                        let calls: Vec<Call> = (0..30u64)
+                            .map(|i| Call {
+                                now: i * 1_000_000,
+                                ev: vec![match i % 10 {
+                                    0 => fwsim::Ev::NR,
+                                    1 => fwsim::Ev::PR,
+                                    2 => fwsim::Ev::TR,
+                                    3 => fwsim::Ev::NS,
+                                    4 => fwsim::Ev::PS(0),
+                                    5 => fwsim::Ev::TS,
+                                    6 => fwsim::Ev::BB(0),
+                                    7 => fwsim::Ev::BE,
+                                    8 => fwsim::Ev::TB(0),
+                                    _ => fwsim::Ev::TE(0),
+                                }],
+                            })
+                            .collect();
+                        if let Err(p) = drive(m2, &calls, 7) {
+                            v.push((
+                                "accepted-machine-crashes-framework".into(),
+                                format!("the parser accepted the well-formed encoding of a machine with an invalid field ({what}), validation accepts it too, and the framework fails on it within 30 events: {p}"),
+                            ));
+                        }
+                    }
+                    return v;
+                }
                 self.check_parsed(
                     r,
                     &format!("the well-formed encoding of a machine with an invalid field ({what})"),
